@@ -138,6 +138,63 @@ theorem c11_sequential_is_instance (cf : Conf) (k : Kind) (g : G) (order cs : Li
   rw [A.1, A.2.1, e1, e2]
   exact ⟨rfl, rfl⟩
 
+/-- **The parallel scheduler records what the sequential ones record** (`_partial`:
+no 127, no builds, known adapters). Take any valid and complete pick sequence of
+the half-step system (process starts and ends of concurrently running
+benchmarks in any completion order — what the parallel scheduler's worker
+threads produce) and any finished sequential session (batch, round-robin or
+random) from the same loaded state: every run has the same events (starts with
+their invocation numbers, recorded data) and ends in the same state. -/
+theorem c11_parallel_equals_sequential_partial (cf : Conf) (g : G) (order : List Nat) (k : Kind) (cs ps : List Nat)
+    (hni : NoInteraction cf g) (hnd : order.Nodup)
+    (hak : ∀ r, (cf.run r).adapterKnown = true) (hnp : ∀ r, (g.rs r).pending = false)
+    (hfin : (session cf k g order cs).finished = true)
+    (hv : valid (halfSys cf) g.rs ps = true)
+    (hc : complete (halfSys cf) g.rs (uncompleted cf g order) ps = true)
+    (hs : ∀ p ∈ ps, p ∈ uncompleted cf g order) (r : Nat) :
+    proj r (exec (halfSys cf) g.rs ps).2 = proj r (session cf k g order cs).trace ∧
+    (exec (halfSys cf) g.rs ps).1 r = (session cf k g order cs).g.rs r := by
+  have A := seq_run_spec cf k r (hni r).1 cs g (uncompleted cf g order) (hnd.sublist List.filter_sublist)
+    (hni.shared r) (uncompleted_not_done' cf g order r)
+  obtain ⟨e1, e2⟩ := exec_proj (halfSys cf) g.rs ps r
+  simp only [session] at hfin ⊢
+  obtain ⟨a1, a2, a3, a4⟩ := A
+  have hcount : ps.count r = 2 * (seqLoop cf k g (uncompleted cf g order) cs).picks.count r := by
+    by_cases hm : r ∈ uncompleted cf g order
+    · have dF := a4 hfin hm
+      rw [a2] at dF
+      simp only [complete, List.all_eq_true] at hc
+      have dH := hc r hm
+      rw [e2] at dH
+      apply first_done_unique (halfSys cf) r (g.rs r) _ _ dH (valid_solo (halfSys cf) g.rs ps r hv)
+      · show halfDone (cf.run r) _ = true
+        rw [solo_half_double cf r (hak r) _ _ (hnp r), halfDone_of_not_pending]
+        · exact dF
+        · rw [solo_runSys_pending]; exact hnp r
+      · intro j hj
+        show halfDone (cf.run r) _ = false
+        have hj2 : j = 2 * (j / 2) ∨ j = 2 * (j / 2) + 1 := by omega
+        generalize j / 2 = i at hj2
+        rcases hj2 with hi | hi
+        · subst hi
+          rw [solo_half_double cf r (hak r) _ _ (hnp r), halfDone_of_not_pending]
+          · exact a3 i (by omega)
+          · rw [solo_runSys_pending]; exact hnp r
+        · subst hi
+          exact solo_half_odd_not_done cf r (hak r) i _ (hnp r) (a3 i (by omega))
+    · rw [List.count_eq_zero.mpr (fun h => hm (hs r h)),
+          List.count_eq_zero.mpr (fun h => hm (seqLoop_picks_subset _ _ _ _ _ r h))]
+  rw [e1, e2, a1, a2, hcount, solo_half_double cf r (hak r) _ _ (hnp r)]
+  exact ⟨rfl, rfl⟩
+
+/-- non-vacuity: an interleaving of two runs and a batch session -/
+example : let cf : Conf := { run := fun _ => { cfg := { N := 2, retries := 1 }, exe := 0 } }
+    let g : G := { rs := fun i => { script := if i = 0 then [.exit 0 false 2, .exit 1 false 0, .exit 0 false 1]
+                                              else [.exit 0 false 1, .exit 0 false 1] } }
+    (session cf .batch g [0, 1] (List.replicate 8 0)).finished = true ∧
+    valid (halfSys cf) g.rs [0, 1, 1, 0, 1, 0, 0, 1] = true ∧
+    complete (halfSys cf) g.rs (uncompleted cf g [0, 1]) [0, 1, 1, 0, 1, 0, 0, 1] = true := by decide
+
 /-! ### the lines of one data point -/
 
 theorem fileLines_append (crit : Nat) (a b : List (Nat × Ev)) :
